@@ -176,6 +176,15 @@ func c01Run(c lib.Case, env *lib.Env) lib.Result {
 			}
 		}
 		out := filepath.Join(env.Scratch, fmt.Sprintf("out%d", ci))
+		var stale *lib.StalePool
+		if ci == 2 {
+			// the old-build pool hands a reader it has handed out just before back at an arbitrary position
+			lib.TargetPoolWrap = func(p lake.Pool) lake.Pool {
+				stale = &lib.StalePool{Inner: p, Rng: lib.NewRng(lib.Mix(s.PairSeed, 8))}
+				return stale
+			}
+		}
+		defer func() { lib.TargetPoolWrap = nil }()
 		err, panicked, stack = lib.Guard(func() error {
 			if ci == 1 {
 				// the library's one-call entry point
@@ -184,6 +193,11 @@ func c01Run(c lib.Case, env *lib.Env) lib.Result {
 			}
 			return lib.ApplyFresh(dr.Patch, oldDir, out)
 		})
+		lib.TargetPoolWrap = nil
+		if stale != nil {
+			res.Add("applies_over_a_stale_position_pool", 1)
+			res.Add("stale_position_pool_readers_moved", stale.Moved)
+		}
 		if panicked {
 			res.Violate("apply-panic", err.Error(), stack)
 			continue
